@@ -259,15 +259,27 @@ func ruleDiffLoops(c *Ctx) {
 					okp = true
 				}
 			}
-			// the silent outcome requires the entries to have compared equal
-			if got == "" && present == +1 && side == 0 {
-				eq := false
-				for _, cs := range p.Conds {
-					if cs.Expr != nil && strings.Contains(types.ExprString(cs.Expr), "DeepEqual") {
-						eq = true
+			// when the key exists on both sides: silent ⇔ the entries compared equal
+			if present == +1 && side == 0 {
+				atoms := map[string]int{}
+				for _, f := range p.Formulas() {
+					atomsOf(f, atoms)
+				}
+				eqKnown, neqKnown := false, false
+				for a := range atoms {
+					if strings.HasPrefix(a, "b:call:DeepEqual#") {
+						if p.Entails(&FLit{a, 2, 2}) {
+							eqKnown = true
+						}
+						if p.Entails(&FLit{a, 2, 1}) {
+							neqKnown = true
+						}
 					}
 				}
-				if !eq {
+				if got == "" && !eqKnown {
+					okp = false
+				}
+				if got != "" && !neqKnown {
 					okp = false
 				}
 			}
